@@ -191,23 +191,38 @@ def sublattices(tier, seed):
     # ---- E
     pairs, ranges = (PAIRS_T, RANGES_T) if T else (PAIRS_Q, RANGES_Q)
     days, deps, arrs = (DAYS_T, DEP_T, ARR_T) if T else (DAYS_Q, DEP_Q, ARR_Q)
-    if T:
-        # thorough: full product on the quick pairs, and the extra pairs crossed with everything
-        # at the quick weekday alphabet (keeps the tier inside its budget)
-        combos = [(p, r, dy, dp, ar) for p in PAIRS_Q for r in ranges for dy in days for dp in deps for ar in arrs]
-        extra = [p for p in PAIRS_T if p not in PAIRS_Q]
-        combos += [(p, r, dy, dp, ar) for p in extra for r in ranges for dy in DAYS_Q for dp in deps for ar in arrs]
-    else:
-        combos = list(itertools.product(pairs, ranges, days, deps, arrs))
+    combos = list(itertools.product(pairs, ranges, DAYS_Q, DEP_Q, ARR_Q))
     cases = []
     for p, r, dy, dp, ar in combos:
         row = make_row(p[0], p[1], efffrom=r[0], effto=r[1], days=dy, deptim=dp, arrtim=ar[0], arrday=ar[1])
         cases.append({'sub': 'E', 'year': 2019, 'via': 'add', 'rows': [row]})
     subs.append({
         'name': 'E: pair x effective range x weekdays x departure x (arrival, day offset)',
-        'axes': {'pair': pairs, 'range': ranges, 'days': days, 'deptim': deps, 'arrival': arrs},
+        'axes': {'pair': pairs, 'range': ranges, 'days': DAYS_Q, 'deptim': DEP_Q, 'arrival': ARR_Q},
         'cases': cases,
     })  # fmt: skip
+    if T:
+        # the clock axes at full resolution on the ranges that contain a DST change
+        t_ranges = [RANGES_Q[0], RANGES_Q[1], RANGES_Q[2], RANGES_Q[3], RANGES_T[12]]
+        cases = []
+        for p, r, dp, ar in itertools.product(pairs, t_ranges, deps, arrs):
+            row = make_row(p[0], p[1], efffrom=r[0], effto=r[1], days='1234567', deptim=dp, arrtim=ar[0], arrday=ar[1])
+            cases.append({'sub': 'Et', 'year': 2019, 'via': 'add', 'rows': [row]})
+        subs.append({
+            'name': 'Et: pair x DST-change range x departure (11) x (arrival, day offset) (12), every weekday',
+            'axes': {'pair': pairs, 'range': t_ranges, 'deptim': deps, 'arrival': arrs},
+            'cases': cases,
+        })  # fmt: skip
+        # the calendar axes at full resolution
+        cases = []
+        d_pairs = [['DEN', 'PHX'], ['LHR', 'LAX'], ['JFK', 'BOS']]
+        for p, r, dy in itertools.product(d_pairs, ranges, days):
+            cases.append({'sub': 'Ed', 'year': 2019, 'via': 'add', 'rows': [make_row(p[0], p[1], efffrom=r[0], effto=r[1], days=dy)]})
+        subs.append({
+            'name': 'Ed: pair x effective range (16) x weekday set (9)',
+            'axes': {'pair': d_pairs, 'range': ranges, 'days': days},
+            'cases': cases,
+        })  # fmt: skip
 
     # ---- Y
     y_years = [2019, 2020, 2021]
@@ -302,6 +317,24 @@ def worker_init(tier, seed):
             raise HarnessError(f'{code} is supposed to be an unknown airport')
     _STATE['known_all'] = set(seen)
     from AEIC.missions import oag  # noqa: F401  (import cost once per worker)
+
+    # Third-party environment, not code under test: constructing a TimezoneFinder re-reads ~20 binary
+    # files (40 ms = 93 % of a case).  The importer still runs its own lazy `TimezoneFinder()` call per
+    # database object; the library constructor is memoised per worker process (the object is read-only).
+    import timezonefinder
+
+    real = timezonefinder.TimezoneFinder
+    if not getattr(real, '_vf_memo', False):
+        cache = {}
+
+        def factory(*a, **k):
+            key = (a, tuple(sorted(k.items())))
+            if key not in cache:
+                cache[key] = real(*a, **k)
+            return cache[key]
+
+        factory._vf_memo = True
+        timezonefinder.TimezoneFinder = factory
 
     _STATE['ready'] = True
 
@@ -534,7 +567,7 @@ def _evaluate(case):
         if kind != 'import':
             if imported or step == 'added':
                 finding = None
-                if kind == 'suspicious-distance' and _dist_signature(row, 'ok', warn):
+                if kind in ('suspicious-distance', 'zero-distance') and _dist_signature(row, 'ok', warn):
                     finding = F_DIST
                 vio.append(V('skip-reason-ignored', f'{label}: must be skipped ({kind}: {exp["why"]}) but a flight record was created', finding=finding))
                 outcomes.append(f'wrongly-imported:{kind}')
